@@ -187,7 +187,6 @@ inductive Outcome where
   | notFound                                              -- 404
   | redirect                                              -- 301 to `path_url + '/'`
   | isADirectory (path : Text)                            -- `open(path, 'rb')` raises IsADirectoryError
-  | valueError                                            -- pkg_resources refuses a Windows-absolute resource name (unguarded call)
   | file (path : Text) (enc : Option Enc) (vary : Bool)   -- 200, body = bytes of `path`
 deriving Repr, DecidableEq
 
@@ -301,10 +300,12 @@ def resourceNameOv (fs : Fs) (w : OvView) (slash : Bool) (segs : List Seg) : Nam
       else .name rp
   else resourceName fs w.v slash segs
 
-/-- `find_resource_path` with the override layer -/
+/-- `find_resource_path` with the override layer.  cb07c73: the three pkg_resources calls are wrapped in
+`try … except ValueError: return None` — a name that pkg_resources refuses as absolute is simply not found. -/
 def findResourcePathOv (fs : Fs) (w : OvView) (name : Text) : Option Text :=
   if w.v.pkg then
-    if pkgExists fs w name && !pkgIsDir fs w name then some (pkgFilename fs w name) else none
+    if pkgRaises fs w name then none
+    else if pkgExists fs w name && !pkgIsDir fs w name then some (pkgFilename fs w name) else none
   else findResourcePath fs w.v name
 
 def candidatesOv (fs : Fs) (w : OvView) (name : Text) : List Cand :=
@@ -314,20 +315,12 @@ def candidatesOv (fs : Fs) (w : OvView) (name : Text) : List Cand :=
   w.v.encs.flatMap fun (e, exts) =>
     exts.filterMap fun ext => (findResourcePathOv fs w (name ++ ext)).map fun p => ⟨p, some e⟩
 
-/-- `get_possible_files` asks `resource_exists` / `resource_isdir` / `resource_filename` about the name and about every
-`name + ext`, unguarded: one of these calls raises (possible although the guarded first call did not: the index name of a
-directory called `X:`, or a variant name missing from the filesystem override source that has the plain name) -/
-def raisesLater (fs : Fs) (w : OvView) (n : Text) : Bool :=
-  w.v.pkg && (n :: w.v.encs.flatMap fun (_, exts) => exts.map fun ext => n ++ ext).any (pkgRaises fs w)
-
 /-- `static_view.__call__` with the override layer -/
 def staticViewOv (fs : Fs) (w : OvView) (ae : Option (List Enc)) (slash : Bool) (segs : List Seg) : Outcome :=
   match resourceNameOv fs w slash segs with
   | .notFound => .notFound
   | .redirect => .redirect
   | .name n =>
-    if raisesLater fs w n then .valueError
-    else
     let files := sortBySize fs.size (candidatesOv fs w n)
     match findBestMatch ae files with
     | none => .notFound
